@@ -160,9 +160,9 @@ NCASES = {"quick": (len(SWEEP["quick"]) * 4) // 3 + 64, "thorough": (len(SWEEP["
 # floors are about 30-35 % of that: what a run still reaches inside its time budget on a machine with load average 40
 FLOORS = {
     "quick": {"events_judged": 7000, "sweep_cases_judged": 1150, "random_cases_judged": 450, "tight_events": 5000,
-              "hetero_component_events": 3300, "cfd_events_judged": 1900, "attach_events_judged": 2000},
+              "hetero_component_events": 3300, "cfd_events_judged": 1900, "attach_events_judged": 2000, "reattach_events_judged": 500},
     "thorough": {"events_judged": 60000, "sweep_cases_judged": 5100, "random_cases_judged": 4500, "tight_events": 44000,
-                 "hetero_component_events": 8000, "cfd_events_judged": 13000, "attach_events_judged": 17000},
+                 "hetero_component_events": 8000, "cfd_events_judged": 13000, "attach_events_judged": 17000, "reattach_events_judged": 4000},
 }
 COVER_FLOORS = {
     t: {
@@ -416,6 +416,32 @@ def judge_integrals(ctx, U, pieces, probes, info, opts):
                 )
             elif d < true:
                 ctx.count("attach_underestimates_with_the_direct_estimate")
+    # --- history: integrals that were processed before (they carry the degree attached for an EARLIER, lower-degree
+    # integrand in their metadata) are given the present integrand (Integral.reconstruct) and processed again
+    if info.get("reattach", True) and len(pieces) and hash(repr(info)) % 3 == 0:
+        from ufl.constantvalue import IntValue
+        from ufl.form import Form as _Form
+
+        for k, (itgs, (sid, integrand, true)) in enumerate(zip(pints, pieces)):
+            if itgs is None or len(itgs) != 1:
+                continue
+            p0 = itgs[0]
+            try:
+                earlier = attach_estimated_degrees(_Form([p0.reconstruct(integrand=IntValue(1))])).integrals()[0]
+                again = attach_estimated_degrees(_Form([earlier.reconstruct(integrand=p0.integrand())])).integrals()
+            except Exception as ex:
+                ctx.count("reattach_refused")
+                continue
+            if len(again) != 1:
+                continue
+            d = again[0].metadata().get("estimated_polynomial_degree")
+            ctx.count("reattach_events_judged")
+            if isinstance(d, int) and d < true and (direct.get(k) is None or direct[k] >= true):
+                ctx.violation(
+                    "C18/attach_estimated_degrees/stale-degree-kept-when-an-integral-is-processed-again",
+                    f"an integral that carried the degree {earlier.metadata().get('estimated_polynomial_degree')} of an earlier integrand keeps degree {d} < true degree {true} after attach_estimated_degrees",
+                    dict(info, integrand=safe_str(p0.integrand(), 600), attached=d, true_degree=true),
+                )
     # --- compute_form_data
     if opts is None:
         return
